@@ -303,6 +303,14 @@ class ArrayWorld(object):
         if isinstance(obj, self.da.DimArray) and obj.size > self.SIZE_CAP:
             self.count("result_too_large_not_kept")
             return
+        if isinstance(obj, self.da.DimArray):
+            from dimarray.core.axes import MultiAxis
+            for i, ax in enumerate(list.__iter__(obj._axes)):
+                if isinstance(ax, MultiAxis) and i < len(obj.shape) and obj.shape[i] > 2000:
+                    # whatever produced it (flatten, a reduction or cumulative operation over a tuple of axes): a grouped axis
+                    # recomputes its tuple labels on every access, element-wise walks over it are quadratic
+                    self.count("result_grouped_axis_too_long_not_kept")
+                    return
         self.objs[oid] = obj
         self.order.append(oid)
         self.uf.add(oid)
